@@ -35,7 +35,6 @@ NEEDS = {
  'C09_4': "meet of blades with grade(A) + grade(B) >= n whose spans do not fill the space (shared factors beyond general position)",
  'C12_3': "a non-zero rotation(+translation) bivector whose coefficients cancel exactly, e.g. theta*(e23 - e12)",
  'C12_4': "a pseudoscalar component on the input of a dual / a meet of complementary-grade objects",
- 'C13_3': "facing planes (parallel, opposite orientation, different offsets): the special-case branch of rotor_between_objects_root",
  'C13_4': "interpolation fraction 0 with a relative rotor on which ga_log is singular (equal poses, same attitude)",
  'C14_3': "a round whose radius / dual has been read BEFORE an operator is applied or from_center_radius is called (two cooperating sites)",
  'C14_4': "the origin written as the zero base vector (0*e1) as centre or as a defining point",
